@@ -301,15 +301,44 @@ _TERMINAL = (ast.Continue, ast.Return, ast.Raise, ast.Break)
 def guards_of(fnode, target):
   """[(test expr, polarity)] under which `target` (an ast node inside fnode) executes: enclosing
   if tests (True for body, False for orelse), enclosing while tests, and for every block on the
-  way earlier sibling `if T: <continue/return/raise/break>` statements without else (T, False)."""
+  way earlier sibling `if T: <continue/return/raise/break>` statements (T, False); an early exit
+  nested in further ifs contributes the conjunction of the tests on the way (synthesised `and`
+  expression, False)."""
   out = []
+
+  def escapes(s):
+    """Condition chains [(test, polarity)...] under which the if-statement s leaves the block
+    (its branch ends in continue/return/raise/break), looking into nested ifs."""
+    res = []
+    if not isinstance(s, ast.If):
+      return res
+    for (branch, pol) in ((s.body, True), (s.orelse, False)):
+      if not branch:
+        continue
+      last = branch[-1]
+      if isinstance(last, _TERMINAL):
+        res.append([(s.test, pol)])
+      elif isinstance(last, ast.If):
+        for ch in escapes(last):
+          res.append([(s.test, pol)] + ch)
+    return res
+
+  def conj(chain):
+    parts = [t if pol else ast.UnaryOp(op=ast.Not(), operand=t) for (t, pol) in chain]
+    if len(parts) == 1:
+      return parts[0], None
+    return ast.BoolOp(op=ast.And(), values=parts), None
 
   def block_guards(stmts, upto):
     for s in stmts:
       if s is upto:
         break
-      if isinstance(s, ast.If) and not s.orelse and s.body and isinstance(s.body[-1], _TERMINAL):
-        out.append((s.test, False))
+      for chain in escapes(s):
+        if len(chain) == 1:
+          t, pol = chain[0]
+          out.append((t, not pol))
+        else:
+          out.append((conj(chain)[0], False))
 
   def holds(s):
     return s is target or any(x is target for x in ast.walk(s))
